@@ -379,12 +379,25 @@ static int32_t cb_msg(qb_ipcs_connection_t *c, void *data, size_t size)
 	}
 	return 0;
 }
-static int32_t cb_closed(qb_ipcs_connection_t *c) { ev_role("Closed", role_lookup(c)); return 0; }
+/* every other scenario (g_closed_retry) the application answers the first connection_closed of a connection with
+ * "not yet" (non-zero): the library has to call it again, and only then connection_destroyed */
+static int g_closed_retry;
+static void *g_closed_seen[64];
+static int g_nclosed_seen;
+static int32_t cb_closed(qb_ipcs_connection_t *c)
+{
+	int ret = 0, seen = 0;
+	for (int i = 0; i < g_nclosed_seen; i++) if (g_closed_seen[i] == (void *)c) seen = 1;
+	if (g_closed_retry && !seen && g_nclosed_seen < 64) { g_closed_seen[g_nclosed_seen++] = c; ret = 1; }
+	if (g_log) { log_sync(); vt_ev("Closed"); vt_i(role_lookup(c)); vt_i(ret); vt_res(); vt_end(); }
+	return ret;
+}
 static void cb_destroyed(qb_ipcs_connection_t *c)
 {
 	int role = role_lookup(c);
 	if (role < 0) role = role_by_pid(c);    /* destroyed without ever having been offered to accept */
 	ev_role("Destroyed", role);
+	for (int i = 0; i < g_nclosed_seen; i++) if (g_closed_seen[i] == (void *)c) { g_closed_seen[i] = g_closed_seen[--g_nclosed_seen]; break; }
 	for (int i = 0; i < nct; i++) if (ctab[i].c == c) { ctab[i] = ctab[nct - 1]; nct--; break; }
 }
 static struct qb_ipcs_service_handlers g_sh = { cb_accept, cb_created, cb_msg, cb_closed, cb_destroyed };
@@ -568,6 +581,7 @@ static void scenario_client(int raw, int transport, int op, int queued, int mode
 	int sync[2];
 	snprintf(name, sizeof name, "c03-%d-%d", (int)g_self, ++g_seq);
 	g_subject = -1; g_victim_pid = -1;
+	g_closed_retry = (N % 2) == 1; g_nclosed_seen = 0;
 	g_wd_armed = g_wd_fired = 0; g_died_logged = 0; g_last_phase = 1;
 	memset(g_last, 0xff, sizeof g_last);
 	fd_census(&g_b0);
